@@ -50,7 +50,10 @@ class C04(Spec):
     RULE = ('histories over {pop n, pause m, pause(), resume m2, resume()} on every policy, ending with a drain; pause '
             'positions drawn from the structurally distinct positions of the run so far (trial start, mid-waveform, '
             'waveform end, inside the delay, delay end, earlier pause points, the clock) -1/0/+1, occasionally in the '
-            'future; plus a stream pausing exactly at trial ends (t = (k+n)/fs) across the fs list. '
+            'future; plus a stream pausing exactly at trial ends (t = (k+n)/fs) across the fs list; every third history '
+            'pauses and resumes the queue again after it ran dry; an odd-order stream (pause before anything was generated, '
+            'pause() then pause(t), two resumes, resume without pause, resume beyond 2^31 samples, the same pause twice, '
+            'single-sample requests around a pause); half of the histories re-spelled by the caller (see C02). '
             'Non-trivial = at least one trial removed.')
     SEARCH_SECONDS = {'quick': 20, 'thorough': 240}
 
